@@ -1,0 +1,13 @@
+//go:build verif
+
+package bstream
+
+import "time"
+
+// VerifFileSourceWithProgressDelay sets the unexported timeBetweenProgressBlocks of a FileSource
+// (verification hook, add-only, compiled only with -tags verif).
+func VerifFileSourceWithProgressDelay(d time.Duration) FileSourceOption {
+	return func(s *FileSource) {
+		s.timeBetweenProgressBlocks = d
+	}
+}
